@@ -78,3 +78,41 @@ Theorem C13_partition_exact :
   partition_spec cge oge ogt oeq = true.
 Proof. exact partition_law_exact. Qed.
 Print Assumptions C13_partition_exact.
+
+(* the laws about the API-level MODEL itself, no hypothesis about outputs (all five joins) *)
+From SSJ Require Import ModelScores ModelLaws F64Spec.
+Theorem C13_transpose_model_all_joins :
+  forall c out out', valid_join_case c -> j_with_score c = true ->
+  api_join c = Some out -> api_join (swap_case c) = Some out' -> transpose_spec c out out' = true.
+Proof. exact C13_transpose_model_all. Qed.
+Print Assumptions C13_transpose_model_all_joins.
+Theorem C13_refine_model_jaccard_cosine_dice :
+  forall c1 c2 m t1 t2 o1 o2,
+  valid_join_case c1 -> valid_join_case c2 -> same_but_t c1 c2 ->
+  j_entry c1 = EJoin m -> is_jcd m = true -> (j_op c1 = ">=" \/ j_op c1 = ">") ->
+  j_t c1 = PFloat t1 -> j_t c2 = PFloat t2 -> fleb t1 t2 = true ->
+  j_with_score c1 = true -> j_with_score c2 = true ->
+  api_join c1 = Some o1 -> api_join c2 = Some o2 -> refine_spec c1 c2 o1 o2 = true.
+Proof. exact C13_refine_model_jcd_b. Qed.
+Theorem C13_refine_model_overlap_join :
+  forall c1 c2 t1 t2 o1 o2,
+  valid_join_case c1 -> valid_join_case c2 -> same_but_t c1 c2 ->
+  j_entry c1 = EJoin "OVERLAP" -> (j_op c1 = ">=" \/ j_op c1 = ">") ->
+  j_t c1 = PInt t1 -> j_t c2 = PInt t2 -> t1 <= t2 ->
+  j_with_score c1 = true -> j_with_score c2 = true ->
+  api_join c1 = Some o1 -> api_join c2 = Some o2 -> refine_spec c1 c2 o1 o2 = true.
+Proof. exact C13_refine_model_overlap. Qed.
+Theorem C13_partition_model :
+  forall c oge ogt oeq, valid_join_case c -> j_allow_missing c = false -> j_with_score c = true ->
+  api_join (with_op c ">=") = Some oge -> api_join (with_op c ">") = Some ogt ->
+  api_join (with_op c "=") = Some oeq ->
+  let cs := [with_op c ">="; with_op c ">"; with_op c "="] in
+  multiset_eqb (keep_rows cs oge) (keep_rows cs ogt ++ keep_rows cs oeq)%list = true.
+Proof. exact C13_partition_model_nongray. Qed.
+Theorem C13_partition_model_exact_no_rounding :
+  forall c oge ogt oeq, valid_join_case c -> no_gray_case c = true -> j_allow_missing c = false ->
+  j_with_score c = true ->
+  api_join (with_op c ">=") = Some oge -> api_join (with_op c ">") = Some ogt ->
+  api_join (with_op c "=") = Some oeq -> partition_spec (with_op c ">=") oge ogt oeq = true.
+Proof. exact C13_partition_model_exact. Qed.
+Print Assumptions C13_partition_model_exact_no_rounding.
